@@ -61,6 +61,15 @@ RULES_OK = '''<?xml version="1.0" encoding="UTF-8"?>
             <type name="q" primitiveType="uint32" offset="%(cmp_q_off)s"/>
             <type name="r" primitiveType="uint8"/>
         </composite>
+        <enum name="eb" encodingType="uint16">
+            <validValue name="x">300</validValue>
+        </enum>
+        <enum name="es" encodingType="uint8">
+            <validValue name="top">%(enum_top)s</validValue>
+        </enum>
+        <type name="kref" primitiveType="%(vr_type)s" presence="constant" valueRef="eb.x"/>
+        <type name="lim" primitiveType="uint8" minValue="0" maxValue="%(max8)s"/>
+        <type name="kc" primitiveType="int8" presence="constant">%(const8)s</type>
         <set name="bits" encodingType="uint8">
             <choice name="lo">0</choice>
             <choice name="hi">%(choice_hi)s</choice>
@@ -71,6 +80,10 @@ RULES_OK = '''<?xml version="1.0" encoding="UTF-8"?>
         <field name="b" id="2" type="uint16" offset="%(b_off)s"/>
         <field name="c" id="3" type="cmp"/>
         <field name="s" id="4" type="bits"/>
+        <field name="kr" id="8" type="kref"/>
+        <field name="kk" id="9" type="kc"/>
+        <field name="l" id="10" type="lim" offset="%(l_off)s"/>
+        <field name="e" id="11" type="es"/>
         <group name="g" id="5" blockLength="%(g_bl)s">
             <field name="x" id="6" type="uint16"/>
             <field name="y" id="7" type="uint32" offset="%(y_off)s"/>
@@ -78,10 +91,15 @@ RULES_OK = '''<?xml version="1.0" encoding="UTF-8"?>
     </sbe:message>
 </sbe:messageSchema>
 '''
-BASE = {"pkg": "vs_rules", "cmp_q_off": "2", "choice_hi": "7", "m_bl": "14", "b_off": "4", "g_bl": "6", "y_off": "2"}
+BASE = {"pkg": "vs_rules", "cmp_q_off": "2", "choice_hi": "7", "m_bl": "16", "b_off": "4", "g_bl": "6", "y_off": "2",
+        "vr_type": "uint16", "max8": "254", "const8": "-128", "enum_top": "255", "l_off": "14"}
 TWINS = {  # one rule-breaking edit each
     "field_offset_below_min": {"b_off": "3"},
-    "message_blocklength_below_content": {"m_bl": "13"},
+    "message_blocklength_below_content": {"m_bl": "15"},
+    "valueref_not_representable": {"vr_type": "uint8"},
+    "maxvalue_not_representable": {"max8": "256"},
+    "constant_not_representable": {"const8": "-129"},
+    "enum_value_not_representable": {"enum_top": "256"},
     "composite_member_offset_below_min": {"cmp_q_off": "1"},
     "group_blocklength_below_content": {"g_bl": "5"},
     "entry_field_offset_below_min": {"y_off": "1"},
@@ -210,6 +228,12 @@ STRTO(strtod, double, __builtin_inf(), 4.9e-324)
             shutil.copy(xml, d); open(os.path.join(d, "replay.sh"), "w").write("#!/bin/sh\ncat %s/*.xml; exit 1\n" % d)
             ctx.pre_violations.append(("schema %s is accepted by sbeppc but its headers do not compile: %s" % (name, ug.get("stderr", "")[:300]), d))
             continue
+        import c02
+        carms = [a_ for a_ in c02.leaf_arms(g, g.levels[0], sch) if a_[0] in ("kr", "kk")]
+        if carms:
+            hs.append(P.Harness("k3_%s_constants" % name, c02.harness(ug, g, carms, 64, 0, 1), [ug], unwind=4, cap=ctx.q(150, 600), extra_flags=["--no-standard-checks"],
+                                meta={"big_loops": ["ref_walk_m.%d" % x for x in range(16)]},
+                                desc="accepted schema vs_rules_%s: constants (valueRef / literal) read back exactly the XML value" % name, bounds={"N": 64}))
         for lv in g.levels:
             if len([lf for lf in lv.leaves if not lf.const and lf.kind != "array"]) < 2: continue
             hs.append(P.Harness("k3_%s_%s" % (name, lv.name), noninterference_harness(ug, g, lv), [ug], unwind=4, cap=ctx.q(150, 600), extra_flags=["--no-standard-checks"],
